@@ -848,3 +848,41 @@ mod test {
         }
     }
 }
+
+/// Verification hook (compiled only with `--cfg tikv_raft_rs_verif`): read-only dump of the
+/// private Ready bookkeeping. The fields are private to this module, so the accessor has to
+/// live here; `crate::verif::rawnode::view` forwards to it. No behaviour change.
+#[cfg(tikv_raft_rs_verif)]
+impl<T: Storage> RawNode<T> {
+    #[doc(hidden)]
+    pub fn verif_view(&self) -> String {
+        use std::fmt::Write;
+        let mut s = String::new();
+        write!(
+            s,
+            "mn={} csi={} uhn={} phs={},{},{} pss={},{} rec={}",
+            self.max_number,
+            self.commit_since_index,
+            self.unpersisted_hs_number,
+            self.prev_hs.term,
+            self.prev_hs.vote,
+            self.prev_hs.commit,
+            self.prev_ss.leader_id,
+            self.prev_ss.raft_state as u64,
+            self.records.len()
+        )
+        .unwrap();
+        for r in &self.records {
+            write!(s, " {}:", r.number).unwrap();
+            match r.last_entry {
+                Some((i, t)) => write!(s, "{}:{}:", i, t).unwrap(),
+                None => s.push_str("-:-:"),
+            }
+            match r.snapshot {
+                Some((i, t)) => write!(s, "{}:{}", i, t).unwrap(),
+                None => s.push_str("-:-"),
+            }
+        }
+        s
+    }
+}
